@@ -355,8 +355,8 @@ pub fn prop() -> Prop {
         describe,
         rule: "generated games with dyadic payoffs and probabilities (every derived number exact), each written as JSON and as Gambit (constant c, interior payoffs, shared outcomes) x -d x -t (incl. -t 0 with -r > 0 and vanilla) x -r x -c x -p (mostly 1) x 2-3 routes from 12 combinations of {.json,.efg,.txt,unknown extension} x {file, stdin} x {explicit --input-format, auto} x {stdout, -o}; -m full (and -m sampled on chance-free games, where it is deterministic); oracle: the harness builds the same game through its own IntoGameNode (actions in name order), calls Game::solve(Full, ..) with the parameters the option values denote, applies truncate, and requires the printed strategies to equal that profile within 1e-9 (pruned exactly when an independent evaluation says its regret is lower by more than 1e-9 D; either when equal); all routes must print the same strategies. Non-trivial = the five presets give pairwise different library results on this game and budget (a mis-wired option would be visible); distinct by (file, arguments, routes).",
         max_len: 1000,
-        cases_quick: 3_000,
-        cases_thorough: 60_000,
+        cases_quick: 40_000,
+        cases_thorough: 500_000,
         assumptions: &["the harness and the binary are two builds of the same library source; the comparison tolerates 1e-9", "extension/content mismatches under auto detection are not generated"],
         post: None,
         watchdog_s: 180,
